@@ -560,6 +560,81 @@ def c13_3(ck, prog):
                      'the comparison header_len + body_len > max_message_length was not found')
 
 
+def c13_2c(ck, prog):
+    r = ck.rule('C13.2c', 'the per-user connection count mirrors the completed list: on every exit of every '
+                'function that adjusts it, the net adjustment for the user equals the net change of '
+                'n_completed (a failed registration gives the +1 back), unless the peer has no unix user',
+                'PAIR', breaks='the count for a user drifts upward: max_connections_per_user refuses '
+                'connections the user is entitled to (or, drifting down, admits more than configured)',
+                floor=2)
+    ADJ = 'adjust_connections_for_uid'
+    sites = prog.call_sites(ADJ)
+    fns = {}
+    for f, b, i, c in sites:
+        if prog.is_production(f):
+            fns[f.key] = f
+    if not fns:
+        raise AnalysisBroken('no caller of adjust_connections_for_uid')
+    for f in lib.prod_funcs(prog, {'bus/connection.c'}):
+        for b, i, ev in f.events():
+            if any(is_member(l, 'n_completed', 'BusConnections') and how in ('+=', '++', '-=', '--')
+                   for l, how, rhs in written_lvalues(ev)):
+                fns[f.key] = f
+    for f in fns.values():
+        bad_args = [c for b, i, c in f.calls(ADJ) if len(c['args']) < 3 or not is_int(c['args'][2])
+                    or c['args'][2]['v'] not in (1, -1)]
+        if bad_args:
+            r.violation('%s:adjustment-constant' % f.name, f.name, f.file, bad_args[0]['line'],
+                        'adjust_connections_for_uid is called with an adjustment other than the constants +1 / -1')
+            continue
+
+        def on_event(user, ev, ctx):
+            uid, comp, pend, gu = user
+            if pend is not None:
+                k = ctx.result_known(pend)
+                if k is True:
+                    uid, pend = uid + 1, None
+                elif k is False:
+                    pend = None
+            if ev['ev'] == 'call':
+                c = ev['e']
+                if c.get('callee') == ADJ:
+                    if c['args'][2]['v'] == 1:
+                        pend = c['id']
+                    else:
+                        uid -= 1                 # "adjusting downward should never fail"
+                elif c.get('callee') == 'dbus_connection_get_unix_user':
+                    gu = c['id']
+            for lhs, how, rhs in written_lvalues(ev):
+                if is_member(lhs, 'n_completed', 'BusConnections'):
+                    if how in ('+=', '++'):
+                        comp += 1
+                    elif how in ('-=', '--'):
+                        comp -= 1
+            return (uid, comp, pend, gu)
+
+        def on_exit(user, ctx, ret, ev, f=f):
+            uid, comp, pend, gu = user
+            if pend is not None:
+                k = ctx.result_known(pend)
+                if k is not False:
+                    uid += 1
+            if gu is not None and ctx.result_known(gu) is False:
+                return                           # no unix user: nothing to count
+            if uid != comp:
+                ctx.report('%s returns with the per-user count changed by %+d but n_completed changed by %+d'
+                           % (f.name, uid, comp), ev['line'] if ev else f.endline, key=('drift', uid, comp))
+        ex = Explorer(f, init=(0, 0, None, None), on_event=on_event, on_exit=on_exit,
+                      calls={ADJ, 'dbus_connection_get_unix_user'}, track='auto', cap=300000,
+                      pure={'dbus_connection_get_unix_user'}).run()
+        if ex.reports:
+            for k, rep in ex.reports.items():
+                r.violation('%s:uid%+d/completed%+d' % (f.name, k[1], k[2]), f.name, f.file, rep['line'],
+                            rep['reason'], rep['path'])
+        else:
+            r.ok('%s:balanced' % f.name, {'states': ex.nstates})
+
+
 def run(ck):
     ck.explanation = (
         'Static rules over bus/driver.c, bus/services.c, bus/connection.c, bus/bus.c, bus/signals.c and '
@@ -576,4 +651,5 @@ def run(ck):
         c13_1d(ck, prog)
         c13_1e(ck, prog)
         c13_2(ck, prog)
+        c13_2c(ck, prog)
         c13_3(ck, prog)
